@@ -107,7 +107,7 @@ static const int CAPS[2] = {3, 8};
 
 static void garbage_prefix_case(int codec)
 {
-    gs::Markers M = gs::markers(codec);
+    gs::Markers M = gsref::golden(codec);
     static std::vector<uint8_t> A[gs::NCODEC];
     if (A[codec].empty())
         A[codec] = noise_alphabet(M);
@@ -249,7 +249,7 @@ static void fault_case(int codec)
 {
     FaultCtx x;
     x.codec = codec;
-    x.M = gs::markers(codec);
+    x.M = gsref::golden(codec);
     static std::vector<uint8_t> A[gs::NCODEC];
     if (A[codec].empty())
         A[codec] = noise_alphabet(x.M);
@@ -313,7 +313,7 @@ static const int LARGE_CAPS_THOROUGH[] = {9,   16,  17,  31,  32,   33,   63,   
                                           65535, 65536, 65537};
 static void large_buffer_case(int codec)
 {
-    gs::Markers M = gs::markers(codec);
+    gs::Markers M = gsref::golden(codec);
     const int *caps = mc::thorough() ? LARGE_CAPS_THOROUGH : LARGE_CAPS_QUICK;
     int ncaps = mc::thorough() ? (int)(sizeof LARGE_CAPS_THOROUGH / sizeof(int)) : (int)(sizeof LARGE_CAPS_QUICK / sizeof(int));
     int first = mc::choose(ncaps * 9);
@@ -345,8 +345,22 @@ static void large_buffer_case(int codec)
     mc::outcome(mc::fmt("%s fits=%d ok=%d%d%d overflows=%zu", gs::codec_name(codec), fits, ok0, ok1, ok2, run.overflows.size()));
 }
 
+// the library's own context objects / macros must hold the protocol's constants: all traffic here is built from the
+// pinned constants (gsref::golden), so a drifted alphabet also shows up as lost frames, and here by name
+static void alphabet_constants_case()
+{
+    int codec = mc::choose(gs::NCODEC);
+    mc::describe("alphabet exposed by the library for %s vs. the protocol constants", gs::codec_name(codec));
+    mc::nontrivial();
+    std::string d = gsref::alphabet_difference(codec);
+    mc::outcome(gs::codec_name(codec));
+    if (!d.empty())
+        mc::violation(mc::fmt("C05.%s.alphabet_constants", gs::codec_name(codec)), "%s: %s", gs::codec_name(codec), d.c_str());
+}
+
 MC_INIT
 {
+    mc::add_check("alphabet_constants", alphabet_constants_case);
     for (int codec = 0; codec < gs::NCODEC; codec++)
     {
         mc::add_check(mc::fmt("garbage_prefix.%s", gs::codec_name(codec)), [codec] { garbage_prefix_case(codec); });
